@@ -633,6 +633,36 @@ def instantiate_fn(fs, item, em):
                                     inv.append("    %s,  /*@ob %s*/" % (cexpr, obid))
                                     em._pending.append({"id": obid, "kind": "loop-invariant", "fn": fnkey,
                                                         "tags": list(fs.tags), "text": cexpr, "marker": obid})
+                            # shape `BASE.map(CLOSURE)`: iterate BASE and call the closure explicitly
+                            # (definition of Iterator::map + Extend); otherwise iterate ITER as is.
+                            mk = None
+                            q = close - 1
+                            if toks[q].text == ")":
+                                dd = 0
+                                qq = q
+                                while True:
+                                    if toks[qq].text in (")", "]", "}"):
+                                        dd += 1
+                                    elif toks[qq].text in ("(", "[", "{"):
+                                        dd -= 1
+                                        if dd == 0:
+                                            break
+                                    qq -= 1
+                                if toks[qq - 1].text == "map" and toks[qq - 2].text == ".":
+                                    mk = qq - 2
+                            if mk is not None:
+                                # `recv.extend(` BASE `.map(` CL `)` `);`
+                                edits.append((toks[r].start, toks[k + 1].end, "{ let __f = "))
+                                # move: we emit closure first, then the loop over BASE
+                                base_txt = text[toks[k + 2].start:toks[mk - 1].end]
+                                edits.append((toks[k + 2].start, toks[mk + 2].end, ""))       # drop `BASE.map(`
+                                edits.append((toks[close - 1].start, toks[close + 1].end,
+                                              "; for __x in %s: %s\n" % (it, base_txt) + "\n".join("                " + x for x in inv) +
+                                              "\n        { %s.push(__f(__x)); } }" % recv))
+                                log.append("R-extend-map: `%s.extend(BASE.map(CL));` rewritten to `let f = CL; for x in BASE { %s.push(f(x)); }` (line %d)" % (
+                                    recv, recv, item.line0 + text.count("\n", 0, toks[k].start)))
+                                found = True
+                                break
                             edits.append((toks[r].start, toks[k + 1].end, "for __x in %s: " % it))
                             edits.append((toks[close].start, toks[close + 1].end,
                                           "\n" + "\n".join("                " + x for x in inv) +
